@@ -14,6 +14,7 @@ _prov_cache: Dict[str, Prov] = {}
 def prov(repo: Repo, f: FuncInfo) -> Prov:
     k = f"{id(repo)}:{f.qn}#{id(f.node)}"
     if k not in _prov_cache:
+        C.pin((repo, f.node))
         _prov_cache[k] = Prov(repo, f)
     return _prov_cache[k]
 
@@ -122,6 +123,7 @@ _pm_cache: Dict[int, dict] = {}
 def rd_of(f: FuncInfo) -> C.ReachingDefs:
     k = id(f.node)
     if k not in _rd_cache:
+        C.pin(f.node)
         _rd_cache[k] = C.ReachingDefs(C.cfg_of(f.node), f.params)
     return _rd_cache[k]
 
@@ -129,6 +131,7 @@ def rd_of(f: FuncInfo) -> C.ReachingDefs:
 def parents_of(f: FuncInfo) -> dict:
     k = id(f.node)
     if k not in _pm_cache:
+        C.pin(f.node)
         from .core import parent_map
         _pm_cache[k] = parent_map(f.node)
     return _pm_cache[k]
